@@ -646,6 +646,60 @@ fn family_arith(tier: Tier) -> Acc {
     acc
 }
 
+// ---------------------------------------------------------------- family 3c: integer arithmetic beyond 32 bits
+/// Integer operands whose sums, differences and products leave the 32-bit range (but stay exactly representable,
+/// |result| <= 2^53): the result is the exact integer, in a condition and when stored by an assignment and read by a
+/// later rule.
+fn family_large_integers(_tier: Tier) -> Acc {
+    let mut acc = Acc { rep: Report::new("large_integers"), nontrivial: BTreeSet::new() };
+    let fields: Vec<(&str, i64)> = vec![("F.p", 60_000), ("F.q", 50_000), ("F.m", 2_147_483_647), ("F.n", -2_147_483_648), ("F.one", 1), ("F.w", 4_294_967_296), ("F.t", 3_000_000_000)];
+    let store = Store { nested: true, vals: fields.iter().map(|(k, v)| (k.to_string(), V::Int(*v))).collect() };
+    let mut operands: Vec<(String, i64)> = fields.iter().map(|(k, v)| (k.to_string(), *v)).collect();
+    operands.push(("2".to_string(), 2));
+    operands.push(("100000".to_string(), 100_000));
+    operands.push(("2147483648".to_string(), 2_147_483_648));
+    let limit: i128 = 1 << 53;
+    for (ta, va) in &operands {
+        for (tb, vb) in &operands {
+            for op in ['+', '-', '*'] {
+                let exact: i128 = match op {
+                    '+' => *va as i128 + *vb as i128,
+                    '-' => *va as i128 - *vb as i128,
+                    _ => *va as i128 * *vb as i128,
+                };
+                if exact.abs() > limit {
+                    continue;
+                }
+                let exact = exact as i64;
+                let expr = format!("{} {} {}", ta, op, tb);
+                let tag: &[&str] = if exact.abs() > i32::MAX as i64 { &["result_beyond_32_bits"] } else { &["result_within_32_bits"] };
+                // in a condition (field-first or literal-first, both are in the typed core)
+                for (cmp, rhs, exp) in [("==", exact, true), ("!=", exact, false), ("==", exact + 1, false), (">=", exact, true), ("<", exact, false)] {
+                    let cond = format!("{} {} {}", expr, cmp, rhs);
+                    check_fired(&mut acc, "large_integers", &cond, &rule_text(&cond), "large", &store, Some(exp), tag);
+                }
+                // stored by an assignment, read back by a later rule
+                acc.rep.count("evaluations", 1);
+                let grl = format!("rule \"Store\" salience 10 no-loop {{\n  when\n    F.one == 1\n  then\n    Out.v = {};\n}}\nrule \"Read\" no-loop {{\n  when\n    Out.v == {}\n  then\n    Out.hit = true;\n}}", expr, exact);
+                let facts = store.to_facts(&["F", "Out"]);
+                let case = json!({"sub": "large_integers", "grl": grl, "store": store.describe(), "expect_fired_total": 2});
+                match run_grl(&grl, &facts, 3) {
+                    Err((class, detail)) => acc.rep.violation(Violation { class: format!("assignment_rejected_{}", class), detail: format!("`Out.v = {}`: {}", expr, detail), tags: tag.iter().map(|t| t.to_string()).collect(), case }),
+                    Ok(o) => {
+                        acc.nontrivial.insert(hstr(&format!("store|{}", expr)));
+                        let hit = read(&facts, "Out.hit") == Some(V::Bool(true));
+                        if !hit || o.fired != 2 {
+                            acc.rep.violation(Violation { class: "assignment_stored_wrong_value".into(), detail: format!("`Out.v = {}` stored {:?}; the later rule `Out.v == {}` {} (rules fired: {})", expr, read(&facts, "Out.v"), exact, if hit { "fired" } else { "did not fire" }, o.fired), tags: tag.iter().map(|t| t.to_string()).collect(), case });
+                        }
+                    }
+                }
+            }
+        }
+    }
+    acc.rep.bound = format!("every `a op b` with op in {{+,-,*}} over {} integer operands (fields and literals from 1 to 2^32, incl. i32::MAX and i32::MIN) whose exact result is within +-2^53: ==, !=, >=, < against the exact integer, and assignment followed by a rule that reads the stored value", operands.len());
+    acc
+}
+
 // ---------------------------------------------------------------- family 3b: string concatenation with +
 /// GRL_SYNTAX.md "String Concatenation": `+` between strings concatenates (`"Order " + Order.id`). Defined here:
 /// every operand is a string and, at each step of the left-to-right evaluation, not both operands look numeric
@@ -738,6 +792,12 @@ pub fn run(opts: &Opts) -> Vec<Report> {
         a.rep.sample(json!({"grl": rule_text("F.i * 3 - F.x >= 18.25")}));
         out.push(finish(a, t0));
     }
+    if crate::props::wants(opts, "large_integers") {
+        let t0 = Instant::now();
+        let mut a = family_large_integers(opts.tier);
+        a.rep.sample(json!({"grl": rule_text("F.p * F.q == 3000000000"), "store": "F.p = 60000, F.q = 50000"}));
+        out.push(finish(a, t0));
+    }
     if crate::props::wants(opts, "string_concatenation") {
         let t0 = Instant::now();
         let mut a = family_concat(opts.tier);
@@ -771,6 +831,12 @@ pub fn replay(case: &serde_json::Value) -> crate::props::ReplayResult {
                 let hit = read(&facts, "Out.hit") == Some(V::Bool(true));
                 if hit != e || (o.fired == 1) != hit {
                     return Err((hist, "condition_verdict_differs".into(), format!("expected fired={}, got fired={} (rules_fired {})", e, hit, o.fired)));
+                }
+            }
+            if let Some(n) = case["expect_fired_total"].as_u64() {
+                let hit = read(&facts, "Out.hit") == Some(V::Bool(true));
+                if !hit || o.fired as u64 != n {
+                    return Err((hist, "assignment_stored_wrong_value".into(), format!("stored {:?}, the reading rule {} (rules fired {})", read(&facts, "Out.v"), if hit { "fired" } else { "did not fire" }, o.fired)));
                 }
             }
             if let Some(e) = case["expect_string"].as_str() {
